@@ -56,6 +56,18 @@ class FakeWriter:
         await asyncio.sleep(0)
         if getattr(self, "broken", False):
             raise ConnectionResetError("peer went away")
+        if getattr(self, "slow", False):
+            # a slow peer: the socket buffer is full, drain() waits until the environment lets it go
+            fut = asyncio.get_running_loop().create_future()
+            self.__dict__.setdefault("waiting", []).append(fut)
+            await fut
+
+    def let_go(self):
+        self.slow = False
+        for fut in self.__dict__.get("waiting", []):
+            if not fut.done():
+                fut.set_result(None)
+        self.__dict__["waiting"] = []
 
     def close(self):
         self.closed = True
@@ -186,6 +198,12 @@ def run_case(case):
                     rd.feed(client_message_xml("newTextVector", "A", k=k).encode("latin1"))
             elif step[0] == "peer-write-error":
                 conns[step[1]]["writer"].fail_next = True
+            elif step[0] == "slow":
+                if hasattr(conns[step[1]]["writer"], "let_go"):
+                    conns[step[1]]["writer"].slow = True
+            elif step[0] == "release":
+                if hasattr(conns[step[1]]["writer"], "let_go"):
+                    conns[step[1]]["writer"].let_go()
             elif step[0] == "write-broken":
                 # the peer's receiving side is gone for good: every later write / drain / flush on this connection fails
                 conns[step[1]]["writer"].broken = True
@@ -210,6 +228,16 @@ def run_case(case):
             closed = ",".join(str(i) for i, c in sorted(conns.items()) if c["kind"] == "tcp" and c["writer"].closed)
             done = ",".join(str(i) for i, c in sorted(conns.items()) if c["task"].done())
             obs.append({"clients": clients, "blob": blob, "recipients": list(dev_log) + got, "closed": closed, "done": done})
+        for c in conns.values():
+            if hasattr(c["writer"], "let_go"):
+                for _ in range(50):
+                    c["writer"].let_go()
+                    await idle()
+                    if not c["writer"].__dict__.get("waiting"):
+                        break
+        await idle()
+        if obs:
+            obs[-1]["attempts"] = {i: getattr(c["writer"], "attempts", 0) for i, c in conns.items()}
         for c in conns.values():
             c["task"].cancel()
         await idle()
@@ -307,6 +335,21 @@ def run_impl(case, outcome):
                 # computed by the specification from the history of registrations, endings and enableBLOBs alone
                 qs.append(Query("spec deliveries %d %s" % (idx, "%d %s" % (idx + 1, " ".join(ops[:idx + 1]))), " ".join(o["recipients"]), "oracle",
                                 "device traffic of step %d %r did not reach exactly the connections that are open and entitled to it" % (n, st)))
+    slow_case = any(st[0] == "slow" for st in case["script"])
+    if slow_case:
+        # a slow peer's writes happen when it is let go, not at the step that routed them: the per-step recipients are not
+        # comparable; what is judged instead is the account at the end - everything routed to a connection while it was
+        # registered has been written to it (attempted) once every peer was let go
+        qs = [q for q in qs if q.line.startswith("router state")]
+        att = obs[-1].get("attempts", {})
+        full = "%d %s" % (len(ops), " ".join(ops))
+        for i in sorted(att):
+            kind_i = [s[2] for s in case["script"] if s[0] == "connect" and s[1] == i][0]
+            if kind_i != "tcp":
+                continue
+            qs.append(Query("spec routedcount %d %s" % (i, full), str(att[i]), "oracle",
+                            "connection %d: the number of messages written to it is not the number routed to it while it was registered "
+                            "(some in-flight deliveries were lost or duplicated when another connection ended)" % i))
     # the whole receive path in the model (Model/Conn.lean): bytes -> buffer model -> character-level parser -> router model,
     # with the handler's control flow (every way of ending closes and unregisters); one observation per script step
     events, last_of_step = [], []
@@ -330,12 +373,12 @@ def run_impl(case, outcome):
             else:
                 k_ = 1 + case["script"].index(st)
                 events.append("R %d %s 0" % (i, enc_str(client_message_xml("newTextVector", "A", k=k_))))
-        last_of_step.append(len(events) - 1 if st[0] not in ("peer-write-error", "write-reset", "write-broken") else None)
+        last_of_step.append(len(events) - 1 if st[0] not in ("peer-write-error", "write-reset", "write-broken", "slow", "release") else None)
     expected = {}
     for n, (st, o, le) in enumerate(zip(case["script"], obs, last_of_step)):
         if le is not None:
             expected[le] = "clients %s blob %s closed %s done %s got %s" % (o["clients"], o["blob"], o["closed"], o["done"], " ".join(o["recipients"]))
-    if not any(st[0] in ("peer-write-error",) for st in case["script"]):
+    if not any(st[0] in ("peer-write-error",) for st in case["script"]) and not slow_case:
         # (a failed write kills the sender task only; the model has no event for it)
         devs_ = "2 D 0 %s D 1 %s" % (enc_opt("A"), enc_opt("B"))
         marks = sorted(expected)
@@ -429,6 +472,15 @@ def gen_cases(rng, tier):
         for victim in range(n):
             pos = rng.randrange(n, len(base))
             yield {"op": "conn", "script": base[:pos] + [["peer-write-error", victim]] + base[pos:] + [["dev", 0, "setTextVector", "A"], ["dev", 1, "setTextVector", "B"]]}
+    # a slow peer B with deliveries queued on its sender lock while another connection A ends (every way of ending): B still
+    # gets everything that was routed to it
+    for n in (2, 3):
+        base = base_script(n)
+        for fault in (faults if thorough else ["eof", "read-error", "handler-exc"]):
+            for victim, slowone in ((0, 1), (1, 0)) if n == 2 else ((0, 2), (2, 0), (1, 2)):
+                script = ([list(x) for x in base] + [["slow", slowone], ["dev", 0, "setTextVector", "A"], ["dev", 1, "defTextVector", "B"], ["dev", 0, "setTextVector", "A"],
+                                                    ["fault", victim, fault], ["dev", 1, "setTextVector", "B"], ["release", slowone], ["dev", 0, "setTextVector", "A"]])
+                yield {"op": "conn", "script": script}
     # two faults on one connection: its write side fails for good (every send task dies), device traffic keeps coming, then its
     # read side ends - by EOF, by a read error, inside a message
     for n in (2, 3):
